@@ -14,7 +14,7 @@ def shape():
 
 SIM_CFG = """SPECIFICATION SSpec
 CONSTANTS
-  TabNames = {"T1"}
+  TabNames = %s
   Zs = {1, 8}
   CtorIso <- MCCtor
   IsoOf <- MCIso
@@ -26,10 +26,11 @@ INVARIANT EmitHist
 """
 
 
-def replay_behaviours(ctx, quick):
+def replay_behaviours(ctx, quick, tabs=("T1",), share=1.0):
     maxlen = 14 if quick else 22
-    res = tlc.run("MC_CoreSim", SIM_CFG % (maxlen, 8 if quick else 25), workers=16, simulate="num=%d" % (25 if quick else 150), depth=maxlen + 3,
-                  seed=ctx.seed + 8, timeout=900)
+    num = max(4, int((25 if quick else 150) * share))
+    res = tlc.run("MC_CoreSim", SIM_CFG % ("{" + ", ".join('"%s"' % t for t in tabs) + "}", maxlen, 8 if quick else 25), workers=16,
+                  simulate="num=%d" % num, depth=maxlen + 3, seed=ctx.seed + 8 + len(tabs), timeout=900)
     if res.rc != 0:
         ctx.error("MC_CoreSim: " + tlc.brief(res.out))
         return False
@@ -47,7 +48,7 @@ def replay_behaviours(ctx, quick):
         for kk in rng.sample(sorted(v), min(3, len(v))):
             hs.append(v[kk])
     res.distinct = len(hs)
-    ctx.tlc("MC_CoreSim (-simulate, behaviours of %d calls with the heap after each)" % maxlen, res)
+    ctx.tlc("MC_CoreSim (-simulate, behaviours of %d calls with the heap after each; private tables %s)" % (maxlen, "+".join(tabs)), res)
     els = shape()
     outs = forkrun.map_fresh("ptv.corereplay", "replay", [{"seed": ctx.seed * 100003 + i, "hist": h, "shape": els} for i, h in enumerate(hs)])
     ops = {}
@@ -61,8 +62,8 @@ def replay_behaviours(ctx, quick):
             ops[k] = ops.get(k, 0) + 1
         for pr in o["problems"]:
             ctx.violation(dict(pr, kind="core-replay", calls=[s_["act"] for s_ in h[1:pr["step"] + 1]]))
-    ctx.count("replayed calls", sum(ops.values()))
-    ctx.cov["replayed_calls_by_action_and_outcome"] = ops
+    ctx.count("replayed calls (%s)" % "+".join(tabs), sum(ops.values()))
+    ctx.cov.setdefault("replayed_calls_by_action_and_outcome", {})["+".join(tabs)] = ops
     return True
 
 
@@ -77,6 +78,10 @@ def run(ctx):
         return
     # ---- spec -> code: behaviours of the same model (TLC -simulate, history variable) replayed call by call
     if not replay_behaviours(ctx, quick):
+        return
+    # ... and with two private tables (the exhaustive model has one): atoms moved between private tables, restores that
+    # must find the right one of two registered tables
+    if not replay_behaviours(ctx, quick, tabs=("T1", "T2"), share=0.4):
         return
     # ---- code -> spec: exhaustive sweep of the real tables, validated by TLC
     els = shape()
